@@ -1,6 +1,7 @@
 //! C03 — document text is preserved: nothing lost, duplicated, reordered or invented.
 use super::common::*;
 use crate::cfg::{render, CfgSpec, Deco, Rend};
+use super::fuzzsub::FuzzSub;
 use crate::engine::{EnumSub, PropSub, Property, Stats};
 use crate::gen::{self, census, label_of, Block, Doc, Inline, COMBINING, G};
 use crate::odom::{self, Arena};
@@ -299,7 +300,7 @@ pub fn check_mutated(case: &DocCase, st: &mut Stats) -> Result<(), String> {
     check_bytes(case, case.html(), st, true)
 }
 
-fn check_bytes(case: &DocCase, html: Vec<u8>, st: &mut Stats, exclude_known: bool) -> Result<(), String> {
+pub fn check_bytes(case: &DocCase, html: Vec<u8>, st: &mut Stats, exclude_known: bool) -> Result<(), String> {
     if case.cfg.deco != Deco::Trivial || case.cfg.footnotes_on() {
         return Err("harness: this sub-check uses the trivial decorator without footnotes".into());
     }
@@ -402,6 +403,8 @@ pub fn property() -> Property {
             EnumSub::new("explicit", false, |_| explicit_regressions(), check_explicit).boxed(),
             PropSub::new("grammar", 48_000, 480_000, move || grammar_case(g.clone()), check_grammar).with_validity(|c| c.doc.valid()).boxed(),
             PropSub::new("mutated", 24_000, 240_000, move || mutated_case(g2.clone()), check_mutated).with_validity(|c| c.doc.valid()).boxed(),
+            FuzzSub { name: "fuzz_render", target: "fuzz_render", props: &["C03"], seconds: 120 }.boxed(),
+            FuzzSub { name: "fuzz_struct", target: "fuzz_struct", props: &["C03"], seconds: 120 }.boxed(),
         ],
     }
 }
